@@ -527,7 +527,11 @@ class QuantityMachine(Machine):
                     "mag": rng.choice([2.0, 5.0, 0.25, 1e3]), "base": base,
                     "x": rng.choice([1.0, 3.0, -2.5, 40.0]), "prefix": rng.random() < 0.5,
                     # another scope opened and closed (or failing to open) inside this one
-                    "inner": rng.choice([None, None, "ok", "fails", "fails_clash"])}
+                    "inner": rng.choice([None, None, "ok", "fails", "fails_clash"]),
+                    # a quantity made inside the scope, kept, and converted for the first time
+                    # after the scope has ended / inside a later scope that gives the symbol
+                    # another size: its base value is the one it was made with
+                    "late": rng.choice([None, None, "after", "redefined"])}
         if len(self.pool) < 1 or (len(self.pool) < cfg["pool"] and rng.random() < 0.15):
             terms = self._rand_terms(rng) if rng.random() > 0.08 else []
             kind = "array" if cfg["arrays"] and rng.random() < 0.4 else "float"
@@ -845,7 +849,22 @@ class QuantityMachine(Machine):
                     what = "inplace:" + name
                     self.inplace_seen = True
                     if name == "to":
+                        # what a fresh quantity built from a's own report reads in that unit:
+                        # whatever an operand remembers from its past (an earlier conversion, an
+                        # operator it took part in) must not show in its next conversion
+                        ok, ref = twin_reading(a, op["unit"]) if isinstance(op["unit"], str) \
+                            and op["unit"] else (False, None)
                         a.to(op["unit"])
+                        if ok:
+                            self.stats.probe("conversion_compared_with_a_fresh_twin")
+                            got = a.value()
+                            if not close_reading(got, ref):
+                                raise Violation(
+                                    "long_lived_quantity_converts_differently_from_a_fresh_one",
+                                    {"to": op["unit"], "got": safe_repr(got),
+                                     "fresh_quantity_of_the_same_value_and_unit": safe_repr(ref),
+                                     "before": show(before[target])},
+                                    signature=f"{self.cfg['prop']}/twin_to")
                     elif name == "to_quantity":
                         from decimal import Decimal as _D
                         tq = {"two": 2.0, "zero": 0.0, "arr2": np.array([1.0, 2.0]),
@@ -1479,6 +1498,11 @@ class QuantityMachine(Machine):
                 q.to(btext)
                 q.to(sym)
                 checks.append((q.value(), x, f"{sym}->{btext}->{sym}"))
+                late = None
+                if op.get("late"):
+                    late = [Quantity(x, sym), Quantity(x, btext)]
+                    if op.get("prefix"):
+                        late.append(Quantity(x, "k" + sym))
                 if op.get("inner"):
                     inner = {"zork": {"magnitude": 7.0, "dimensions": [0, 0, 1, 0, 0, 0, 0, 0]}}
                     if op["inner"] == "fails":
@@ -1503,6 +1527,23 @@ class QuantityMachine(Machine):
                     refused = False
                 except Exception:
                     refused = True
+            if late:
+                self.stats.probe("custom_unit_quantity_first_converted_after_its_scope")
+                wants = [x * mag, x, x * mag * 1e3]
+                if op["late"] == "redefined":
+                    units2 = {sym: {"magnitude": 3 * mag * fb, "dimensions": dims,
+                                    "prefixes": ["k"] if op.get("prefix") else False}}
+                    with UnitEnvironment(units2):
+                        for lq, w in zip(late, wants):
+                            checks.append((lq.value(btext), w, f"made as {x} {lq.units()} while "
+                                           f"{sym} = {mag} {btext}, read in {btext} while {sym} = "
+                                           f"{3 * mag} {btext}"))
+                        checks.append((Quantity(x, sym).value(btext), 3 * x * mag,
+                                       f"{sym}->{btext} in the later scope"))
+                else:
+                    for lq, w in zip(late, wants):
+                        checks.append((lq.value(btext), w, f"made as {x} {lq.units()} inside the "
+                                       f"scope, read in {btext} after it"))
         except Violation:
             raise
         except Exception as e:
